@@ -786,6 +786,10 @@ def resolved_callee(t):
     return norm_path(c.get('res') or c['path'])
 
 
+_VARIANT_FAMILY = ('Ok', 'Err', 'Some', 'None', 'Continue', 'Break')
+_VARIANT_COMPAT = {'Ok': ('Ok',), 'Err': ('Err',), 'Some': ('Some',), 'None': ('None',), 'Continue': ('Continue', 'Ok', 'Some'), 'Break': ('Break', 'Err', 'None')}
+
+
 class Prov:
     """Access-path provenance of MIR locals inside one body.
 
@@ -894,6 +898,7 @@ class Prov:
             if k == 'Deref':
                 continue
             nb = set()
+            pruned = []
             for b in bases:
                 if k == 'Field':
                     if e.get('adt') in BOX_INTERNALS:
@@ -905,6 +910,13 @@ class Prov:
                     else:
                         nb.add(('f', b, e.get('name', e['i'])))
                 elif k == 'Downcast':
+                    # an alternative that is a freshly built *other* variant cannot be seen through this downcast
+                    # (`(x as Continue).0` after `?` never is the Err(..)/None a spliced helper also returns)
+                    if b[0] == 'agg' and isinstance(b[1], str):
+                        have = b[1].rsplit('::', 1)[-1]
+                        if have in _VARIANT_FAMILY and e['name'] in _VARIANT_FAMILY and have not in _VARIANT_COMPAT[e['name']]:
+                            pruned.append(b)
+                            continue
                     nb.add(('dc', b, e['name']))
                 elif k == 'Index':
                     nb.add(('ix', b, '?'))
@@ -912,6 +924,8 @@ class Prov:
                     nb.add(('ix', b, e['off'] if not e['from_end'] else -e['off']))
                 else:
                     nb.add(('proj', b, k))
+            if not nb and pruned:
+                nb = {('dc', b, e['name']) for b in pruned}       # nothing feasible left: keep what there was (fail closed downstream)
             bases = nb
         return bases
 
